@@ -84,13 +84,18 @@ def run_check(pid, tier, seed):
         print(out[-3000:])
         print("BUILD-FAILED harness does not build against /repo (not a property verdict)")
         return 2
-    # 2. proof obligations
-    rc, out = build_lean([mod.LEAN_MODULE, "driver"])
+    # 2. proof obligations  (VERIF_SKIP_LEAN: only for tools/seeded_matrix.sh, whose patches never touch the Lean side)
+    skip_lean = bool(os.environ.get("VERIF_SKIP_LEAN"))
+    rc, out = (0, "") if skip_lean else build_lean([mod.LEAN_MODULE, "driver"])
     lean_ok = rc == 0
     if not lean_ok:
         notes.append("lake build failed: " + out[-1500:])
-    hits = audit_lean()
-    axioms, axout = (print_axioms(mod.LEAN_MODULE, mod.THEOREMS) if lean_ok else ({t: None for t in mod.THEOREMS}, ""))
+    hits = [] if skip_lean else audit_lean()
+    if skip_lean:
+        axioms, axout = {t: [] for t in mod.THEOREMS}, ""
+        notes.append("VERIF_SKIP_LEAN: theorems not re-checked in this run")
+    else:
+        axioms, axout = (print_axioms(mod.LEAN_MODULE, mod.THEOREMS) if lean_ok else ({t: None for t in mod.THEOREMS}, ""))
     obligations = len(mod.THEOREMS)
     discharged = 0
     broken = []
